@@ -28,6 +28,9 @@ type c03Cfg struct {
 	// Resend: history — after the (possibly failed) Send the very same Msg objects are sent once more over a new,
 	// fault-free connection: what the server commits then must be complete as well
 	Resend bool `json:"resend,omitempty"`
+	// ResendNoRcpt (with Resend): before the re-send all recipients are removed from the messages, so the second
+	// attempt is refused locally before MAIL FROM — whatever the first attempt did, the messages are then NOT delivered
+	ResendNoRcpt bool `json:"resend_norcpt,omitempty"`
 }
 
 type c03Case struct {
@@ -275,6 +278,13 @@ func c03Exec(r *vf.Run, cfg c03Cfg, c *vf.Chooser) (keys, whats []string) {
 	if cfg.Resend {
 		// before anything else renders these Msg objects again: the same objects over a new, fault-free connection
 		f.off = true
+		if cfg.ResendNoRcpt {
+			for _, m := range msgs {
+				_ = m.To()
+				_ = m.Cc()
+				_ = m.Bcc()
+			}
+		}
 		pan, pw = vf.Guard(func() {
 			if err := cl.DialWithContext(context.Background()); err != nil {
 				r.HarnessError("C03 second dial failed: %v", err)
@@ -305,6 +315,23 @@ func c03Exec(r *vf.Run, cfg c03Cfg, c *vf.Chooser) (keys, whats []string) {
 				}
 			}
 		}
+	}
+	// (in this mode the messages were changed after the first attempt: that attempt is judged by the other
+	// configurations, here only the refused second attempt is)
+	if cfg.Resend && cfg.ResendNoRcpt {
+		if len(sess2.Commits) > 0 {
+			add("commit-without-recipients/on-resend", fmt.Sprintf("the server committed %d message(s) although every message had lost its recipients", len(sess2.Commits)))
+		}
+		for i := range msgs {
+			if resendDelivered[i] {
+				add(fmt.Sprintf("stale-delivered-after-refused-resend/first-attempt-delivered=%v", delivered[i]),
+					fmt.Sprintf("message %d: the re-send was refused before MAIL FROM (no recipients), yet IsDelivered()==true (after the first attempt it was %v)", i, delivered[i]))
+			}
+		}
+		if resendErr != nil {
+			r.Outcome("reached/resend-refused-locally")
+		}
+		return
 	}
 	// reference renderings of the very Msg objects that were sent, faults switched off
 	f.off = true
@@ -489,7 +516,7 @@ func init() {
 	vf.Register(&vf.Check{
 		ID: "C03", Title: "only complete messages are committed; IsDelivered tells the truth",
 		Run: func(r *vf.Run) {
-			r.SetRule("batches of 1..3 messages over shapes {single, alternative, body+attachment, body+embed, body+attachment from a reader, body+embed from a read-seeker}; (history) the same Msg objects sent again over a fault-free connection; choice points: every content producer {ok, fail before first byte, fail after half — with a generic error, with io.EOF, with a wrapped io.EOF}, S/MIME signing of single-part messages {off, fails at render time before the first byte}, transport failure in each DATA phase at {never, first content byte, inside headers, inside a part body, just before the end, inside the end-of-data marker, inside the content of the last part}, server reply at NOOP/MAIL/RCPT/DATA/RSET {ok,4yz,5yz,drop,multi-line ok,421+disconnect} and at end-of-data {250,4yz,5yz,drop,251,multi-line 250}; all vectors with <= k deviations; oracle: server commit log vs. reference rendering of the same Msg objects; distinct by (configuration, choice vector)")
+			r.SetRule("batches of 1..3 messages over shapes {single, alternative, body+attachment, body+embed, body+attachment from a reader, body+embed from a read-seeker}; (history) the same Msg objects sent again over a fault-free connection, unchanged or after all their recipients were removed (second attempt refused before MAIL FROM); choice points: every content producer {ok, fail before first byte, fail after half — with a generic error, with io.EOF, with a wrapped io.EOF}, S/MIME signing of single-part messages {off, fails at render time before the first byte}, transport failure in each DATA phase at {never, first content byte, inside headers, inside a part body, just before the end, inside the end-of-data marker, inside the content of the last part}, server reply at NOOP/MAIL/RCPT/DATA/RSET {ok,4yz,5yz,drop,multi-line ok,421+disconnect} and at end-of-data {250,4yz,5yz,drop,251,multi-line 250}; all vectors with <= k deviations; oracle: server commit log vs. reference rendering of the same Msg objects; distinct by (configuration, choice vector)")
 			r.Assume("the reference rendering is WriteTo on the same Msg after Send with faults disabled (default file encodings; repeatability itself is C11)",
 				"the transport's final CRLF after content that does not end in CRLF is not part of the message")
 			type job struct {
@@ -526,6 +553,7 @@ func init() {
 					b = 2
 				}
 				jobs = append(jobs, job{c03Cfg{M: 1, Rot: rot, Resend: true}, b + 1}, job{c03Cfg{M: 2, Rot: rot, Resend: true}, b})
+				jobs = append(jobs, job{c03Cfg{M: 2, Rot: rot, Resend: true, ResendNoRcpt: true}, 1})
 			}
 			if !r.Thorough {
 				// quick still covers batches of 3 at bound 1
@@ -565,7 +593,7 @@ func init() {
 				})
 			}
 			r.Reached("reached/transport-failure-class-1", "reached/transport-failure-class-2", "reached/transport-failure-class-3", "reached/transport-failure-class-4", "reached/transport-failure-class-5", "reached/transport-failure-class-6",
-				"reached/signing-failure", "reached/producer-failure", "reached/commit", "reached/resend-committed-all", "reached/resend-after-transport-failure")
+				"reached/signing-failure", "reached/producer-failure", "reached/commit", "reached/resend-committed-all", "reached/resend-after-transport-failure", "reached/resend-refused-locally")
 		},
 		Replay: func(r *vf.Run, kase json.RawMessage) {
 			var k c03Case
